@@ -284,7 +284,7 @@ META["C08"] = {
 }
 
 META["C09"] = {
-    "level": "exploration",
+    "level": "other",
     "level_text": "Bounded contract check on the real code: every subset of callback placements "
     "(class, method, function processor; parameterized property) x 15 operator lambdas with call "
     "sites at depth 0..2; the expected invocation sequence is computed by an independent walk of "
@@ -292,11 +292,15 @@ META["C09"] = {
     "method, nothing else fires, each callback's MetaData is on the args[0] chain below the new "
     "operator in order and none stays in the lambda, returned rewrites are emitted, [param] "
     "subscripts are removed and parameters arrive by value.",
-    "level_note": "Bounded stand-in; the ghost-trace contracts of DESIGN §4 C09 are not under "
-    "engine P in this build.",
-    "technique": "bounded contract check of the callback-trace / metadata-placement contracts on generated class models (labelled stand-in)",
-    "p_keys": False,
-    "explanation": "bounded only",
+    "level_note": "Proved with a ghost call log (for every class / method pair and every call node): "
+    "process_method_callbacks calls the class callback then the method callback, each once and only "
+    "if registered, the second with the stream and the node returned by the first, returns the last "
+    "node and leaves the last stream in the transformer. Assumed: a callback returns a (stream, node) "
+    "pair. Bounded: which call sites match (typing / inspect reflection) and where the MetaData ends "
+    "up in the query.",
+    "technique": "bounded contract check of the callback-trace / metadata-placement contracts on generated class models (labelled stand-in); the callback sequencing of process_method_callbacks under contract with a ghost call log, discharged with z3",
+    "p_keys": True,
+    "explanation": "callback sequencing proved; call-site matching bounded",
     "assumptions": ["placements x lambdas bounded as stated"],
 }
 
